@@ -1373,19 +1373,15 @@ func stripLoadOnce(v ssa.Value) ssa.Value { return v }
 
 func ruleC15HashIdx(cx *Ctx) {
 	const rule = "C15.hashidx"
-	cx.R.Rule(rule, 4, "wherever a bucket is selected by a key's hash, the hash comes from the hasher of the very table whose bucket slice is indexed and masked with that slice's length - 1, and the tag stored with the node comes from the same hash value")
+	cx.R.Rule(rule, 3, "wherever a bucket is selected by a key's hash - in place or through a selector helper of the table - the hash comes from the hasher of the very table whose bucket slice is indexed and masked with that slice's length - 1, and the tag stored with a node comes from the same hash value as the bucket it is stored in")
 	h1f := cx.need(rule, hmPkg, "", "h1")
 	h2f := cx.need(rule, hmPkg, "", "h2")
 	if h1f == nil || h2f == nil {
 		return
 	}
-	hashOf := func(v ssa.Value) (*ssa.Call, ssa.Value) {
-		// v = h1(hash) / h2(hash): returns the Hash invoke/call and the table it was taken from
-		c, ok := stripConv(v).(*ssa.Call)
-		if !ok || !(isCallTo(c, h1f) || isCallTo(c, h2f)) {
-			return nil, nil
-		}
-		h, ok := stripConv(c.Call.Args[0]).(*ssa.Call)
+	// hashCall: v is Hash(key) of some table's hasher: the call and the table value
+	hashCall := func(v ssa.Value) (*ssa.Call, ssa.Value) {
+		h, ok := stripConv(v).(*ssa.Call)
 		if !ok {
 			return nil, nil
 		}
@@ -1401,70 +1397,160 @@ func ruleC15HashIdx(cx *Ctx) {
 		}
 		return h, baseOfField(recv, "hasher", 0)
 	}
-	n := 0
-	for _, fn := range cx.P.FuncsOfPkg(hmPkg) {
-		withClosures(fn, func(f *ssa.Function) {
-			allInstrs(f, func(in ssa.Instruction) {
-				ia, ok := in.(*ssa.IndexAddr)
-				if !ok {
-					return
-				}
-				tb := baseOfField(ia.X, "buckets", 0)
-				if tb == nil {
-					return
-				}
-				// index = (len(buckets)-1) & h1(hash)  (either operand order)
-				b, isB := stripConv(ia.Index).(*ssa.BinOp)
-				if !isB || b.Op != token.AND {
-					return // walks by position (resize, Range, constructors): not addressed by hash
-				}
-				var hc *ssa.Call
-				var ht, lt ssa.Value
-				for _, side := range [][2]ssa.Value{{b.X, b.Y}, {b.Y, b.X}} {
-					if h, t := hashOf(side[0]); h != nil {
-						hc, ht = h, t
-						lt = baseOfField(side[1], "buckets", 0)
-					}
-				}
-				if hc == nil {
-					return
-				}
-				n++
-				cx.R.Check(ht != nil && ht == tb && lt == tb, rule, funcName(f), fmt.Sprintf("bucket index #%d", n), cx.P.where(in), "hasher, length mask and bucket slice belong to the same table value")
-			})
-		})
+	// hOf: v = h1(x) / h2(x): x
+	hOf := func(v ssa.Value, f *ssa.Function) ssa.Value {
+		c, ok := stripConv(v).(*ssa.Call)
+		if !ok || !isCallTo(c, f) {
+			return nil
+		}
+		return stripConv(c.Call.Args[0])
 	}
-	cx.R.Check(n >= 3, rule, "hashmap", "hash-addressed bucket selections found", "-", fmt.Sprintf("%d", n))
-	// the tag handed to appendToBucket / setByte is h2 of a hash of the destination table's hasher
-	ab := cx.P.Func(hmPkg, "", "appendToBucket")
-	if ab != nil {
-		k := 0
-		for _, fn := range cx.P.FuncsOfPkg(hmPkg) {
-			withClosures(fn, func(f *ssa.Function) {
-				allInstrs(f, func(in ssa.Instruction) {
-					if !isCallTo(in, ab) {
-						return
-					}
-					k++
-					args := callArgs(in)
-					h, ht := hashOf(args[0])
-					// the destination bucket must be addressed with the same hash value
-					same := false
-					if h != nil {
-						if ia, ok := stripLoad(args[2]).(*ssa.IndexAddr); ok {
-							if b, isB := stripConv(ia.Index).(*ssa.BinOp); isB {
-								for _, s := range []ssa.Value{b.X, b.Y} {
-									if h2c, _ := hashOf(s); h2c == h {
-										same = baseOfField(ia.X, "buckets", 0) == ht
-									}
-								}
+	type selector struct {
+		fn            *ssa.Function
+		tableP, hashP int
+		result        int
+	}
+	var selectors []selector
+	pidx := func(f *ssa.Function, v ssa.Value) int {
+		for i, p := range f.Params {
+			if ssa.Value(p) == v {
+				return i
+			}
+		}
+		return -1
+	}
+	n := 0
+	for _, f := range cx.P.FuncsOfPkg(hmPkg) {
+		f := f
+		allInstrs(f, func(in ssa.Instruction) {
+			ia, ok := in.(*ssa.IndexAddr)
+			if !ok {
+				return
+			}
+			tb := baseOfField(ia.X, "buckets", 0)
+			if tb == nil {
+				return
+			}
+			b, isB := stripConv(ia.Index).(*ssa.BinOp)
+			if !isB || b.Op != token.AND {
+				return // walks by position (resize, Range, constructors): not addressed by hash
+			}
+			var hv, lt ssa.Value
+			for _, side := range [][2]ssa.Value{{b.X, b.Y}, {b.Y, b.X}} {
+				if x := hOf(side[0], h1f); x != nil {
+					hv = x
+					lt = baseOfField(side[1], "buckets", 0)
+				}
+			}
+			if hv == nil {
+				return
+			}
+			n++
+			key := fmt.Sprintf("bucket index #%d", n)
+			if hc, ht := hashCall(hv); hc != nil {
+				cx.R.Check(ht != nil && ht == tb && lt == tb, rule, funcName(f), key, cx.P.where(in), "hasher, length mask and bucket slice belong to the same table value")
+				return
+			}
+			// a selector helper: the hash is a parameter, the table too
+			hp, tp := pidx(f, hv), pidx(f, tb)
+			if hp >= 0 && tp >= 0 && lt == tb {
+				res := -1
+				allInstrs(f, func(x ssa.Instruction) {
+					if r, isR := x.(*ssa.Return); isR {
+						for i, v := range r.Results {
+							if v == ssa.Value(ia) {
+								res = i
 							}
 						}
 					}
-					cx.R.Check(same, rule, funcName(f), fmt.Sprintf("appendToBucket #%d tag and bucket from one hash", k), cx.P.where(in), "the tag byte and the destination bucket are derived from the same hash of the destination table's hasher")
 				})
-			})
+				selectors = append(selectors, selector{f, tp, hp, res})
+				cx.R.OK(rule, funcName(f), key, cx.P.where(in), "selector helper: length mask and bucket slice belong to its table parameter, the hash is its parameter (call sites checked)")
+				return
+			}
+			cx.R.Violate(rule, funcName(f), key, cx.P.where(in), "NOT SATISFIED: the hash that selects the bucket is neither a Hash of this table's hasher nor a parameter of a selector helper")
+		})
+	}
+	// selector call sites
+	selOf := func(in ssa.Instruction) *selector {
+		for i := range selectors {
+			if isCallTo(in, selectors[i].fn) {
+				return &selectors[i]
+			}
 		}
+		return nil
+	}
+	for _, f := range cx.P.FuncsOfPkg(hmPkg) {
+		f := f
+		allInstrs(f, func(in ssa.Instruction) {
+			sel := selOf(in)
+			if sel == nil {
+				return
+			}
+			n++
+			cc := callCommon(in)
+			_, ht := hashCall(cc.Args[sel.hashP])
+			cx.R.Check(ht != nil && ht == cc.Args[sel.tableP], rule, funcName(f), fmt.Sprintf("bucket selection #%d", n), cx.P.where(in), "the hash handed to the selector comes from the hasher of the table it selects in")
+		})
+	}
+	cx.R.Check(n >= 3, rule, "hashmap", "hash-addressed bucket selections found", "-", fmt.Sprintf("%d", n))
+	// tag and bucket from one hash: every call that is handed h2(H) and a bucket
+	k := 0
+	for _, f := range cx.P.FuncsOfPkg(hmPkg) {
+		f := f
+		allInstrs(f, func(in ssa.Instruction) {
+			cc := callCommon(in)
+			if cc == nil || cc.IsInvoke() || calleeOf(in) == nil || isCallTo(in, h1f) || isCallTo(in, h2f) {
+				return
+			}
+			var H ssa.Value
+			for _, a := range cc.Args {
+				if x := hOf(a, h2f); x != nil {
+					H = x
+				}
+			}
+			if H == nil {
+				return
+			}
+			hc, ht := hashCall(H)
+			if hc == nil {
+				return // a tag computed from a parameter: the helper's own callers are the sites
+			}
+			// the bucket argument
+			same, found := false, false
+			for _, a := range cc.Args {
+				if namedTypeName(derefType(a.Type())) != "bucketPadded" {
+					continue
+				}
+				found = true
+				v := stripLoad(a)
+				if ia, ok := v.(*ssa.IndexAddr); ok {
+					if b, isB := stripConv(ia.Index).(*ssa.BinOp); isB {
+						for _, sd := range []ssa.Value{b.X, b.Y} {
+							if x := hOf(sd, h1f); x != nil && x == H {
+								same = baseOfField(ia.X, "buckets", 0) == ht
+							}
+						}
+					}
+				}
+				var call *ssa.Call
+				if ex, ok := v.(*ssa.Extract); ok {
+					call, _ = ex.Tuple.(*ssa.Call)
+				} else if c, ok := v.(*ssa.Call); ok {
+					call = c
+				}
+				if call != nil {
+					if sel := selOf(call); sel != nil {
+						same = stripConv(call.Call.Args[sel.hashP]) == H && call.Call.Args[sel.tableP] == ht
+					}
+				}
+			}
+			if !found {
+				return
+			}
+			k++
+			cx.R.Check(same, rule, funcName(f), fmt.Sprintf("tag and bucket from one hash #%d", k), cx.P.where(in), "the tag byte and the destination bucket are derived from the same hash of the destination table's hasher")
+		})
 	}
 }
 
